@@ -17,7 +17,7 @@ EXTENDS Locals, TLC
 CONSTANTS Vals, MaxStack, MaxOps, OpKinds, Made0,
           Bug      \* "none" | "setattr" | "delattr" | "release" | "push" | "pop" |
                    \* "release_stack" | "proxy_early" | "spawn_fresh" | "release_all" | "falsy_unbound" |
-                   \* "iop_rebind"
+                   \* "iop_rebind" | "mgr_iter" | "cleanup_first" | "mw_forget"
 
 VARIABLES st,     \* contract state (Locals.tla)
           im,     \* implementation state
@@ -36,7 +36,9 @@ EmptyD == [nm \in Names |-> NoBox]
 InitImpl == [hd |-> [r \in Refs |-> EmptyD], hl |-> [r \in Refs |-> <<>>],
              cvd |-> [c \in Ctxs |-> NoRef], cvl |-> [c \in Ctxs |-> NoRef],
              cont |-> [b \in Boxes |-> Init0(b)], pmade |-> Made0, pearly |-> [k \in PKinds |-> NoBox],
-             pproxy |-> [k \in PKinds |-> TRUE]]      \* the Python name k still holds the LocalProxy
+             pproxy |-> [k \in PKinds |-> TRUE],
+             mgr |-> {"ns", "stack"},     \* LocalManager.locals of the manager in use
+             mbroken |-> FALSE]           \* .locals holds something that is not a local      \* the Python name k still holds the LocalProxy
 
 DictOf(I, c) == IF I.cvd[c] = NoRef THEN EmptyD ELSE I.hd[I.cvd[c]]
 ListOf(I, c) == IF I.cvl[c] = NoRef THEN <<>> ELSE I.hl[I.cvl[c]]
@@ -85,9 +87,24 @@ Resolve(I, c, k) == IF Bug = "proxy_early" THEN I.pearly[k]
                             /\ ~TruthyC(I.cont, Lookup(I, c, k)) THEN NoBox
                     ELSE Lookup(I, c, k)
 
+\* LocalManager.cleanup() in context c: release_local() for each managed local
+ICleanup(I, alive, c) ==
+  IF I.mbroken THEN I
+  ELSE LET m  == IF Bug = "cleanup_first" /\ I.mgr = {"ns", "stack"} THEN {"ns"} ELSE I.mgr
+           I1 == IF "ns" \in m THEN SetDict(I, alive, c, EmptyD, "release") ELSE I
+       IN IF "stack" \in m THEN SetList(I1, alive, c, <<>>, "release_stack") ELSE I1
+\* what the WSGI app of an "mw" request does before it returns its body
+IAppEffect(I, alive, o) ==
+  IF o.n # "" THEN SetDict(I, alive, o.ctx, [DictOf(I, o.ctx) EXCEPT ![o.n] = o.b], "setattr")
+  ELSE IF o.b # NoBox THEN SetList(I, alive, o.ctx, Append(ListOf(I, o.ctx), o.b), "push") ELSE I
+
 IRet(I, o) ==
   LET c == o.ctx d == DictOf(I, c) l == ListOf(I, c) IN
-  CASE o.op = "get"  -> IF d[o.n] # NoBox THEN BoxR(d[o.n]) ELSE ExcR("AttributeError")
+  CASE o.op = "pop_all" -> IntR(Len(l))
+    [] o.op = "cleanup" -> IF I.mbroken THEN ExcR("AttributeError") ELSE OkR
+    [] o.op = "mw" -> IF o.v = 3 THEN ExcR("AppError")
+                      ELSE IF I.mbroken /\ Bug # "mw_forget" THEN ExcR("AttributeError") ELSE OkR
+    [] o.op = "get"  -> IF d[o.n] # NoBox THEN BoxR(d[o.n]) ELSE ExcR("AttributeError")
     [] o.op = "del"  -> IF d[o.n] # NoBox THEN OkR ELSE ExcR("AttributeError")
     [] o.op = "iter" -> IntR(Cardinality({nm \in Names : d[nm] # NoBox}))
     [] o.op \in {"pop", "top"} -> IF Len(l) = 0 THEN NoneR ELSE BoxR(l[Len(l)])
@@ -100,14 +117,25 @@ INext(I, alive, o) ==
   LET c == o.ctx d == DictOf(I, c) l == ListOf(I, c) IN
   CASE o.op = "set"  -> SetDict(I, alive, c, [d EXCEPT ![o.n] = o.b], "setattr")
     [] o.op = "del"  -> IF d[o.n] = NoBox THEN I ELSE SetDict(I, alive, c, [d EXCEPT ![o.n] = NoBox], "delattr")
-    [] o.op = "release" ->
+    [] o.op \in {"release", "release_dunder"} ->
          IF Bug = "release_all" THEN [I EXCEPT !.cvd = [x \in Ctxs |-> NoRef]]
          ELSE SetDict(I, alive, c, EmptyD, "release")
     [] o.op = "push" -> SetList(I, alive, c, Append(l, o.b), "push")
     [] o.op = "pop"  -> IF Len(l) = 0 THEN I ELSE SetList(I, alive, c, SubSeq(l, 1, Len(l) - 1), "pop")
-    [] o.op = "release_stack" -> SetList(I, alive, c, <<>>, "release_stack")
-    [] o.op = "cleanup" ->
-         LET I1 == SetDict(I, alive, c, EmptyD, "release") IN SetList(I1, alive, c, <<>>, "release_stack")
+    [] o.op \in {"release_stack", "release_stack_dunder"} -> SetList(I, alive, c, <<>>, "release_stack")
+    [] o.op = "pop_all" -> IF Len(l) = 0 THEN I ELSE SetList(I, alive, c, <<>>, "pop")
+    [] o.op = "cleanup" -> ICleanup(I, alive, c)
+    \* ClosingIterator(app(environ, start_response), self.cleanup): the app runs first; if it raises
+    \* nothing is wrapped; otherwise close() -- however much of the body was consumed -- runs cleanup
+    [] o.op = "mw" -> IF o.v = 3 \/ Bug = "mw_forget" THEN IAppEffect(I, alive, o)
+                      ELSE ICleanup(IAppEffect(I, alive, o), alive, c)
+    \* LocalManager(x): None -> [], a Local -> [x], anything else -> list(x).  Bug "mgr_iter" drops
+    \* the isinstance test: list(a Local) are the (name, value) items of the constructing context
+    [] o.op = "mkmgr" ->
+         IF Bug = "mgr_iter" /\ o.k = "local"
+         THEN [I EXCEPT !.mgr = {}, !.mbroken = (d # EmptyD)]
+         ELSE [I EXCEPT !.mgr = MgrOf(o.k), !.mbroken = FALSE]
+    [] o.op = "mgr_append" -> [I EXCEPT !.mgr = @ \cup MgrOf(o.k)]
     [] o.op = "mkproxy" -> [I EXCEPT !.pmade = @ \cup {o.k},
                                      !.pearly[o.k] = IF o.k = TOP THEN TopOf(l) ELSE d[o.k]]
     [] o.op \in ObjOps ->
@@ -127,7 +155,14 @@ O(c, op, nm, b, v, k, ch) == [ctx |-> c, op |-> op, n |-> nm, b |-> b, v |-> v, 
 AllOps ==
        {O(c, "set", nm, b, 0, "", 0) : c \in Ctxs, nm \in Names, b \in Boxes}
   \cup {O(c, op, nm, 0, 0, "", 0) : c \in Ctxs, op \in {"get", "del"}, nm \in Names}
-  \cup {O(c, op, "", 0, 0, "", 0) : c \in Ctxs, op \in {"iter", "release", "pop", "top", "release_stack", "cleanup"}}
+  \cup {O(c, op, "", 0, 0, "", 0) : c \in Ctxs, op \in {"iter", "release", "pop", "top", "release_stack", "cleanup",
+                                                            "release_dunder", "release_stack_dunder", "pop_all"}}
+  \* (LocalManager(bare LocalStack) is left out: the type annotation allows it, the code raises
+  \*  TypeError; the contract leaves its outcome open, so the refinement says nothing about it)
+  \cup {O(c, "mkmgr", "", 0, 0, k, 0) : c \in Ctxs, k \in MgrForms \ {"stack"}}
+  \cup {O(c, "mgr_append", "", 0, 0, k, 0) : c \in Ctxs, k \in {"local", "stack"}}
+  \cup {O(c, "mw", nm, b, v, k, 0) : c \in Ctxs, nm \in Names, b \in Boxes, v \in MwVariants, k \in MwForms}
+  \cup {O(c, "mw", "", b, v, k, 0) : c \in Ctxs, b \in MwPush, v \in MwVariants, k \in MwForms}
   \cup {O(c, "push", "", b, 0, "", 0) : c \in Ctxs, b \in Boxes}
   \cup {O(c, op, "", 0, 0, k, 0) : c \in Ctxs, op \in {"mkproxy", "proxy_read"}, k \in PKinds}
   \cup {O(c, "proxy_mutate", "", 0, v, k, 0) : c \in Ctxs, v \in Vals, k \in PKinds}
@@ -139,6 +174,7 @@ AllOps ==
 Allowed(S, o) == /\ o.op \in OpKinds
                  /\ Enabled(S, o)
                  /\ (o.op = "push" => Len(S.stack[o.ctx]) < MaxStack)
+                 /\ (o.op = "mw" /\ o.n = "" /\ o.b # NoBox => Len(S.stack[o.ctx]) < MaxStack)
                  \* lists grown through a proxy stay small
                  /\ (o.op \in {"proxy_iadd", "proxy_imul"} =>
                         LET b == Bound(S, o.ctx, o.k) IN
